@@ -185,13 +185,13 @@ def gen_groups(ctx):
         op = rng.choice(ddgen.BIN_OPS)
         add(kind, ddgen.case_pairs("x", kind, rng.choice(ddgen.PERMS3), op,
                                    sample=None if thorough else 8000, rng=rng), threads=(1, 2, 8, (4, 0), (4, 12)))
-        for _ in range(120 if thorough else 9):
+        for _ in range(120 if thorough else (14 if kind == "zbdd" else 9)):
             # ZBDD: the set-family interface (subset0/1, change, union, ...) as well -- its single-threaded and
             # multi-threaded function types are separate wrappers
             from checks import C09
             gcr = lambda rng, nv, pick, fresh, live: "GCR"      # gc() from inside a reorder() closure
             sat = lambda rng, nv, pick, fresh, live: f"SAT h{pick()} {nv + rng.choice([0, 0, 1, 3])} {rng.choice(['u64', 'nat', 'u128'])}"
-            extra = (C09.zb_extra, C09.zb_extra, C09.zb_extra, gcr) if kind == "zbdd" else (gcr, sat, sat)
+            extra = (C09.zb_extra,) * 6 + (gcr,) if kind == "zbdd" else (gcr, sat, sat)
             add(kind, ddgen.case_history("x", kind, rng, nv=rng.randrange(3, 8), length=60, extra_ops=extra), threads=(1, 2, 8, (4, 0), (4, 12)))
     # the three ways of declaring variables (add_vars, add_named_vars, add_named_vars_from_map -- the last one adopts
     # the caller's map when the manager has no variables yet) on every configuration (both node stores implement them)
